@@ -691,3 +691,6 @@ Definition ex_aff : tspec R := TAffine (Some (1 / 100)) [1 / 4; -3].
 Definition ex_rqs : tspec R := TRqs 3 (-2) 3 (1 / 100) (1 / 1000) [1; -1; 0; 2; 0; -2; 0; 1; -1; 3; 1 / 2].
 Lemma ex_aff_ok : spec_ok ex_aff. Proof. cbn. split; [reflexivity|lra]. Qed.
 Lemma ex_rqs_ok : spec_ok ex_rqs. Proof. cbn. repeat split; try lra; lia. Qed.
+(* a depth-0 conditioner with one input and 11 outputs (the parameter count of a 3-knot spline) *)
+Definition ex_w11 : list (list R) := map (fun v : R => v :: nil) [1; -1; 2; 0; 1 / 2; -2; 3; 1; -1; 1 / 4; 5].
+Definition ex_b11 : list R := [0; 1; -1; 2; 0; -2; 1; 0; 3; -1; 1 / 2].
